@@ -256,6 +256,8 @@ impl DecoderHandler {
     pub uninterp spec fn ty(&self) -> u16;
     #[verifier::external_body]
     pub fn call(&self, ctx: AttributeDecoderContext) -> (r: Result<(StunAttribute, usize), StunError>)
+        // the precondition the attribute-kind decoders are verified under in unit `attrs` (an attribute length is 16 bits)
+        requires ctx.raw_value@.len() <= 0xFFFF,
         ensures r is Ok <==> dec_attr(self.ty(), ctx.raw_value@, ctx.decoded_msg@) is Some,
             r is Ok ==> r->Ok_0.0 == dec_attr(self.ty(), ctx.raw_value@, ctx.decoded_msg@)->Some_0,
     { unimplemented!() }
